@@ -69,6 +69,8 @@ var dNets = []struct {
 	{netip.MustParsePrefix("10.1.2.16/28"), netip.MustParseAddr("10.1.2.17"), netip.MustParseAddr("10.1.2.30"), netip.MustParsePrefix("10.1.2.17/29")},
 	{netip.MustParsePrefix("192.168.0.0/24"), netip.MustParseAddr("192.168.0.129"), netip.MustParseAddr("192.168.0.11"), netip.MustParsePrefix("192.168.0.129/25")},
 	{netip.MustParsePrefix("192.168.1.0/25"), netip.MustParseAddr("192.168.1.2"), netip.MustParseAddr("192.168.1.1"), netip.MustParsePrefix("192.168.1.66/26")},
+	// a home LAN wider than /24: addresses of both halves share their last octet
+	{netip.MustParsePrefix("192.168.2.0/23"), netip.MustParseAddr("192.168.3.129"), netip.MustParseAddr("192.168.2.11"), netip.MustParsePrefix("192.168.3.129/25")},
 }
 
 // client identities: two keyed by chaddr / a conventional client-id, two sharing one chaddr with different client-ids
@@ -360,15 +362,35 @@ func runDHCPOn(tb drv.TB, rec *drv.Rec, sub string, h dhcpHistory, or dhcpOracle
 				if ip, ok := led.holding(ident); ok {
 					return ip
 				}
-			case "other":
+			case "other": // the lowest address held by (else offered to) somebody else
+				var best netip.Addr
 				for ip, k := range led.holder {
-					if k != ident {
-						return ip
+					if k != ident && (!best.IsValid() || ip.Less(best)) {
+						best = ip
 					}
+				}
+				if best.IsValid() {
+					return best
 				}
 				for k, o := range led.offered {
 					if k != ident && o.ok {
 						return o.ip
+					}
+				}
+			case "twin": // in a LAN wider than /24: a free address that shares its last octet with the lowest held one
+				var best netip.Addr
+				for ip := range led.holder {
+					if !best.IsValid() || ip.Less(best) {
+						best = ip
+					}
+				}
+				if best.IsValid() {
+					a := best.As4()
+					for d := 1; d < 4; d++ {
+						t := netip.AddrFrom4([4]byte{a[0], a[1], a[2] ^ byte(d), a[3]})
+						if _, held := led.holder[t]; !held && lan.Contains(t) && t != n.host && t != n.router && t != bcastOf(lan) && t != lan.Masked().Addr() && env.s.FindIP(t) == nil {
+							return t
+						}
 					}
 				}
 			case "free":
